@@ -112,16 +112,15 @@ theorem resolve_modifier {C : ClassInfo} {S : List Spec} {o : Outcome} (h : reso
 * for every dependency `dep` of a specifier `n`, the specifier that produces the *final* value of `dep`
   (its modifier if it has one, else its specifier) is evaluated strictly before `n` -- in particular
   the dependency is provided;
-* a specifier that modifies a property is evaluated strictly after the specifier of that property
-  (for the properties `modProps` that the source records for it: the last modified one at the pinned
-  commit -- see `topo_order_single_modifiable` -- or all of them once `orderAllModified` holds). -/
+* a specifier that modifies properties is evaluated strictly after the specifiers of all of them
+  (`modProps`: every property whose entry in `modifying` is this specifier). -/
 theorem topo_order {C : ClassInfo} {S : List Spec} {o : Outcome} (h : resolve C S = .ok o) :
     o.order.Nodup ∧ (∀ n, n ∈ o.order ↔ n ∈ o.nodes) ∧
     (∀ n ∈ o.order, ∀ dep ∈ depsOf C S n,
       match get o.modifier dep with
       | some m => m ∈ o.order ∧ pos o.order m < pos o.order n
       | none => ∃ a, get o.assign dep = some a ∧ a ∈ o.order ∧ pos o.order a < pos o.order n) ∧
-    (∀ m ∈ o.order, ∀ p ∈ modProps C.orderAllModified o.modifier m,
+    (∀ m ∈ o.order, ∀ p ∈ modProps o.modifier m,
       ∃ a, get o.assign p = some a ∧ a ∈ o.order ∧ pos o.order a < pos o.order m) := by
   obtain ⟨pre, hpre, hord, ha, hmo, hno⟩ := resolve_ok h
   have hA := assignPhase_ok hpre
@@ -242,8 +241,14 @@ theorem stage2_defect (C : ClassInfo) (S : List Spec)
       · right; right; rfl
 
 /-- **Final properties.** Directly specifying a derived (final) property with a non-modifying
-specifier is always an error. -/
-theorem final_reported (C : ClassInfo) (S : List Spec) (s : Spec) (hs : s ∈ S) (hsm : s.modifying = false)
+specifier is always an error.
+
+Partial: the statement the property asks for has no hypothesis `hsm` --
+`theorem final_reported (C S) (s ∈ S) ((p, k) ∈ s.prios) (p ∈ C.finals) : ∃ e, resolve C S = .error e ∧ ...` --
+and is false of the code as it is: the modifying pass of `_resolveSpecifiers` has no `prop in finals` check, so a
+modifying specifier (`on`) may specify a final property (`final_by_modifier_unreported_witness`; known finding
+`final-specified-by-modifying-specifier`, proposed repair notes/fixes/C06-final-modifying-specifier.diff). -/
+theorem final_reported_partial (C : ClassInfo) (S : List Spec) (s : Spec) (hs : s ∈ S) (hsm : s.modifying = false)
     (p : String) (k : Nat) (hp : (p, k) ∈ s.prios) (hf : p ∈ C.finals) :
     ∃ e, resolve C S = .error e ∧ (e = .dupName ∨ e = .finalProp ∨ e = .tie) := by
   apply stage2_defect
@@ -484,7 +489,7 @@ def exWith : Spec := ⟨"With(length)", [("length", 1)], [], false, []⟩
 def exFacing : Spec := ⟨"Facing", [("yaw", 1), ("pitch", 1), ("roll", 1)], ["parentOrientation"], false, []⟩
 def exC : ClassInfo := ⟨[("position", []), ("length", ["shape"]), ("shape", []), ("baseOffset", ["height"]), ("height", ["shape"]),
   ("contactTolerance", []), ("onDirection", []), ("parentOrientation", []), ("yaw", []), ("pitch", []), ("roll", []),
-  ("orientation", ["parentOrientation", "pitch", "roll", "yaw"]), ("heading", ["orientation"])], ["heading", "orientation"], false⟩
+  ("orientation", ["parentOrientation", "pitch", "roll", "yaw"]), ("heading", ["orientation"])], ["heading", "orientation"]⟩
 
 def okOf : Except Err Outcome → Option Outcome
   | .ok o => some o
